@@ -24,7 +24,7 @@ def sig_of(m: dict) -> dict:
     sig = dict(rec.get('sig', {}))
     sig['clause'] = m['clause']
     sig['expected'] = m['exp']
-    slim = {k: v for k, v in rec.items() if k not in ('sig', 'pix')}
+    slim = {k: v for k, v in rec.items() if k not in ('sig', 'pix', 'stored')}
     sig['record'] = slim
     return sig
 
@@ -50,10 +50,11 @@ def run(tier: str, seed: int) -> int:
         fams = [('VtfLayoutT_edges.cfg' if thorough else 'VtfLayout_edges.cfg', 'layout'),
                 ('VtfLayoutRes_edges.cfg', 'layout'),
                 ('VtfLayoutPixelT_edges.cfg' if thorough else 'VtfLayoutPixel_edges.cfg', 'pix'),
-                ('VtfLayoutAccess_edges.cfg', 'layout')]
+                ('VtfLayoutAccess_edges.cfg', 'layout'),
+                ('VtfLayoutHistT_edges.cfg' if thorough else 'VtfLayoutHist_edges.cfg', 'layout')]
         merged = work.path('all.ndjson')
         actions: dict = {}
-        counts = {'saves': 0, 'ctor': 0, 'access': 0}
+        counts = {'saves': 0, 'ctor': 0, 'access': 0, 'resaves': 0}
         def family(job):
             """TLC dumps the edges of one configuration (single worker), the driver replays them."""
             cfg, mode = job
@@ -61,15 +62,17 @@ def run(tier: str, seed: int) -> int:
             core.require_mc(r, cfg)
             edges = [p for p in r.prints if isinstance(p, dict) and p.get('tag') == 'EDGE']
             n_save = sum(1 for e in edges if e['a']['op'] == 'save')
-            if len(edges) != r.generated - 1 - n_save:      # Read steps (one per saved file) are not printed
+            hist = 'Hist' in cfg                            # the history family prints its Read steps
+            if len(edges) != r.generated - 1 - (0 if hist else n_save):      # Read steps (one per saved file) are not printed
                 raise core.MachineryError(f'{cfg}: {len(edges)} edges printed, {r.generated} generated, {n_save} saves')
             ef = work.path(cfg + '.json')
             ef.write_text(json.dumps(edges))
             out = work.path(cfg + '.ndjson')
             st = json.loads(core.run_driver('c15_driver.py', ['edges', ef, mode, out],
                                             env={'VERIF_SEED': seed, 'VERIF_TIER': tier}).strip().splitlines()[-1])
-            want = {'saves': n_save, 'ctor': sum(1 for e in edges if e['a']['op'] == 'create'),
-                    'access': sum(1 for e in edges if e['a']['op'] in ('get', 'set'))}
+            want = {'saves': 0 if hist else n_save, 'ctor': 0 if hist else sum(1 for e in edges if e['a']['op'] == 'create'),
+                    'access': sum(1 for e in edges if e['a']['op'] in ('get', 'set')),
+                    'resaves': sum(1 for e in edges if e['a']['op'] == 'resave')}
             if any(st.get(k, 0) != v for k, v in want.items()) or st.get('pre_state_diverged'):
                 raise core.MachineryError(f'{cfg}: coverage handshake failed: driver {st}, model {want}')
             ops: dict = {}
@@ -90,7 +93,7 @@ def run(tier: str, seed: int) -> int:
                 for k in counts:
                     counts[k] += want[k]
                 mf.write(open(out, encoding='utf-8').read())
-            need = {'create', 'resource', 'sheet', 'get', 'set', 'save', 'read'}
+            need = {'create', 'resource', 'sheet', 'get', 'set', 'save', 'read', 'load', 'look', 'compute', 'clear', 'resave', 'reread'}
             if not need <= set(actions):
                 raise core.MachineryError(f'vacuous model: actions never taken: {need - set(actions)}')
             # 3. harness-written files of every format; random textures outside the bounds
@@ -112,7 +115,7 @@ def run(tier: str, seed: int) -> int:
         cov['mismatches'] = len(mism)
         rs = core.read_ndjson(merged)
         picks = []
-        for kind in ('ctor', 'rt', 'access', 'synth'):
+        for kind in ('ctor', 'rt', 'access', 'hist', 'synth'):
             for rec in rs:
                 if rec['k'] == kind and (kind != 'rt' or (rec['variant'] == 'adj' and rec['pix'])):
                     picks.append({k: v for k, v in rec.items() if k != 'hist'})
